@@ -135,6 +135,63 @@ theorem tick_inactive (f : Fsm) (hs : f.state < 3) (m : MapState) (e : Option (F
 theorem deadline (m : MapState) (nowS : Nat) : holdsC14Deadline nowS (mapResetInactive m nowS) = true := by
   simp [holdsC14Deadline, mapResetInactive]
 
+/-! ## The deadline over histories: nothing but a received frame arms it, nothing but the tick that acts on it disarms it -/
+
+/-- the operations on the mapping engine's extra state that the glue and the tick perform -/
+inductive MOp where
+  | frame (nowS : Nat)        -- mapping_reset_inactive_timeout (called for every received frame)
+  | charge (nowS : Nat)       -- mapping_on_charge
+  | resetCharge               -- mapping_reset_charge
+  | checkCharge (nowS : Nat)  -- mapping_check_charge_timeout
+  | tick (nowS : Nat)         -- the mapping block of automata_tick
+
+def mstep (m : MapState) : MOp → MapState
+  | .frame n => mapResetInactive m n
+  | .charge n => mapOnCharge m n
+  | .resetCharge => mapResetCharge m
+  | .checkCharge n => (mapCheckCharge m n).1
+  | .tick n => if mapCheckInactive m n then (mapCheckCharge (mapResetCharge { m with inactTs := 0 }) n).1 else (mapCheckCharge m n).1
+
+/-- the deadline as the specification tracks it -/
+def dlstep (d : Nat) : MOp → Nat
+  | .frame n => n + 30
+  | .tick n => if d ≠ 0 ∧ n ≥ d then 0 else d
+  | _ => d
+
+theorem checkCharge_inact (m : MapState) (n : Nat) : (mapCheckCharge m n).1.inactTs = m.inactTs := by
+  unfold mapCheckCharge; split
+  · rfl
+  · split <;> rfl
+
+/-- for EVERY sequence of these operations the deadline stored in the record is the specification's: a Charge, the
+    charge time-out or a charge reset never disarm the inactivity timer -/
+theorem deadline_history (ops : List MOp) (m : MapState) (d : Nat) (h : m.inactTs = d) :
+    (ops.foldl mstep m).inactTs = ops.foldl dlstep d := by
+  induction ops generalizing m d with
+  | nil => exact h
+  | cons op rest ih =>
+    simp only [List.foldl_cons]
+    apply ih
+    cases op with
+    | frame n => simp [mstep, dlstep, mapResetInactive]
+    | charge n => simp [mstep, dlstep, mapOnCharge, h]
+    | resetCharge => simp [mstep, dlstep, mapResetCharge, h]
+    | checkCharge n => simp [mstep, dlstep, checkCharge_inact, h]
+    | tick n =>
+      simp only [mstep, dlstep, mapCheckInactive, decide_eq_true_eq]
+      rw [h]
+      by_cases hc : d ≠ 0 ∧ n ≥ d
+      · rw [if_pos hc, if_pos hc, checkCharge_inact]; rfl
+      · rw [if_neg hc, if_neg hc, checkCharge_inact]; exact h
+
+/-- the tick of the model is `mstep … (.tick n)` on the mapping engine's extra state -/
+theorem tick_is_mstep (f : Fsm) (m : MapState) (e : Option (Fsm × Option Band)) (t : Option Table) (ltx : Nat) (port : PortMode) (nowMs : Nat) :
+    ∃ f', (tick { mapping := some (f, some m), enum := e, table := t, lastTx := ltx } port nowMs).1.mapping = some (f', some (mstep m (.tick (nowMs / 1000)))) := by
+  simp only [tick, tickMapStage, mstep]
+  by_cases hc : mapCheckInactive m (nowMs / 1000) = true
+  · simp [hc]
+  · simp [hc]
+
 /-- non-vacuity: a concrete Command state within its timeout, and one past it -/
 example : holdsC14Step 5 ⟨1, 10⟩ (stepMapping ⟨1, 10⟩ 2 12) 2 12 = true ∧ (stepMapping ⟨1, 10⟩ 2 12).state = 2 := by decide
 example : (stepMapping ⟨1, 10⟩ 2 100).state = 0 := by decide
